@@ -68,10 +68,11 @@ PrintPct == IsEv("printpct") /\ LET txt == E.arg \o <<37>> \o E.arg \o <<124>> I
             E.r = E.n + Len(txt) /\ Upd(WriteAt(S, E.n, txt))
 PrintNull == IsEv("printnull") /\ LET txt == E.arg \o <<60, 78, 85, 76, 76, 62, 124>> \o E.arg IN           \* "%s%$|%s" with NULL shown: a <NULL> | a
              E.r = E.n + Len(txt) /\ Upd(WriteAt(S, E.n, txt))
+CmpType == IsEv("cmptype") /\ E.r = Sign(StrCmp(S, E.arg)) /\ E.n = (IF S = E.arg THEN 1 ELSE 2) /\ Upd(S)      \* eq (1) / neq (2) follow the texts
 Cmp == IsEv("cmp") /\ E.r = Sign(StrCmp(S, str[E.p])) /\ E.n = (IF S = str[E.p] THEN 1 ELSE 0) /\ Upd(S)
 Del == IsEv("del") /\ Step(Without(str, E.o))
 
-Next == Reset \/ End \/ New \/ Copy \/ Assign \/ AssignO \/ Concat \/ ConcatO \/ RemOk \/ RemFail \/ Mem \/ RemOOk \/ RemOFail \/ MemO \/ ConcatIn \/ AssignIn \/ Resize \/ RemInt \/ ResizeHuge \/ PrintAt \/ PrintSelf \/ PrintPct \/ PrintNull \/ Cmp \/ Del
+Next == Reset \/ End \/ New \/ Copy \/ Assign \/ AssignO \/ Concat \/ ConcatO \/ RemOk \/ RemFail \/ Mem \/ RemOOk \/ RemOFail \/ MemO \/ ConcatIn \/ AssignIn \/ Resize \/ RemInt \/ ResizeHuge \/ PrintAt \/ PrintSelf \/ PrintPct \/ PrintNull \/ CmpType \/ Cmp \/ Del
 Spec == Init /\ [][Next]_vars
 Accepted == LET d == TLCGet("stats").diameter IN
             /\ PrintT(<<"TRACE_MATCHED", d - 1, Len(T)>>)
